@@ -91,13 +91,16 @@ class QuantMixin:
         t = smt.simp(t)
         if z3.is_int_value(t) and False:
             return
+        todo = []
         for k in self._closure(self._seq_key(s)):
             terms = self.q_terms.setdefault(k, [])
             if any(x.eq(t) for x in terms):
                 continue
             terms.append(t)
-            for f in list(self.q_facts.get(k, [])):
-                self._inst(f, t)
+            todo.extend(self.q_facts.get(k, []))
+        # facts that DEFINE elements (maps, hypotheses) before facts that evaluate conditions on them (filters)
+        for f in [f for f in todo if not f.name.startswith('filter')] + [f for f in todo if f.name.startswith('filter')]:
+            self._inst(f, t)
 
     def elem_generic(self, s, t):
         """element read at a GENERIC index (used while summarising a comprehension / predicate once): only
@@ -108,9 +111,11 @@ class QuantMixin:
         et = self.seq_elem_type.get(smt.simp(s).get_id())
         if et is not None:
             self._add_axiom(z3.Implies(z3.And(t >= 0, t < z3.Length(s)), self.type_formula(v, et)))
-        for k in self._closure(self._seq_key(s)):
+        k0 = self._seq_key(s)
+        for k in self._closure(k0):
             for f in list(self.q_facts.get(k, [])):
-                if f.name in ('all', 'any'):
+                # hypotheses everywhere; structural facts (map / filter) only of this very sequence
+                if f.name in ('all', 'any') or k == k0:
                     self._inst(f, smt.simp(t))
         return v
 
@@ -552,12 +557,14 @@ class QuantMixin:
         snap_frame = fr
         snap = self.st.snapshot()
 
-        def cond_and_value(x):
-            """(z3 Bool passes, Val value) for element x, evaluated in the state at comprehension time"""
+        def cond_and_value(x, under):
+            """(z3 Bool passes, Val value) for element x, evaluated in the state at comprehension time, under
+            the assumption `under` (the index is in range)"""
             cur = self.st.snapshot()
             self.st.restore(snap)
             try:
                 def thunk():
+                    self.assume(under)
                     sub = Frame(snap_frame.func, snap_frame.module, parent=snap_frame, cls=snap_frame.cls)
                     sub.is_spec = snap_frame.is_spec
                     self.assign(gen.target, x, sub)
@@ -571,8 +578,10 @@ class QuantMixin:
             conds, vals = [], []
             for guard, kind_, v, st_after in rs:
                 if kind_ == 'raise':
-                    if self.feasible(guard):
-                        raise Unsupported('element of a filtering comprehension can raise')
+                    if self.feasible_precise(z3.And(guard, under)):
+                        c = self.class_of(v)
+                        raise Unsupported(f'element of a filtering comprehension can raise {c.name if c else "?"} '
+                                          f'for element {str(smt.simp(x))[:80]}')
                     continue
                 sq = smt.simp(z3.Select(st_after.seq, Val.r(v)))
                 conds.append((guard, smt.simp(Val.b(sq[0]))))
@@ -582,12 +591,22 @@ class QuantMixin:
 
         r_terms: List[Any] = []
 
+        def nest(t) -> int:
+            """nesting depth of pos / rank applications (instantiation is cut off beyond a small depth)"""
+            d = 0
+            while z3.is_app(t) and t.num_args() == 1 and t.decl().name() in (pos.name(), rank.name()):
+                d += 1
+                t = t.arg(0)
+            return d
+
         def inst_R(q):
             inr = z3.And(q >= 0, q < m)
             p = pos(q)
             self._add_axiom(z3.Implies(inr, z3.And(p >= 0, p < n)))
-            x = smt.simp(S[p])
-            passes, vals = cond_and_value(x)
+            if nest(p) <= 3:
+                self.note_index(S, p)          # facts about the source element first (its class, its value)
+            x = self.nth(S, p)
+            passes, vals = cond_and_value(x, z3.And(inr, p >= 0, p < n))
             self._add_axiom(z3.Implies(inr, passes))
             if vals:
                 self._add_axiom(z3.Implies(inr, z3.Or(*[z3.And(g, R[q] == v) for g, v in vals])))
@@ -596,16 +615,16 @@ class QuantMixin:
                                        z3.Implies(z3.And(q2 < q, q2 >= 0, q < m), pos(q2) < pos(q))))
             r_terms.append(q)
             self._add_axiom(z3.Implies(inr, rank(p) == q))
-            self.note_index(S, p)
 
         def inst_S(p):
             inr = z3.And(p >= 0, p < n)
-            x = smt.simp(S[p])
-            passes, _ = cond_and_value(x)
+            x = self.nth(S, p)
+            passes, _ = cond_and_value(x, inr)
             rk = rank(p)
             self._add_axiom(z3.Implies(z3.And(inr, passes), z3.And(rk >= 0, rk < m, pos(rk) == p)))
-            if not any(t.eq(smt.simp(rk)) for t in r_terms):
-                self.note_index(R, rk)
+            if nest(rk) <= 3 and not (z3.is_app(p) and p.decl().name() == pos.name()) \
+                    and not any(t.eq(smt.simp(rk)) for t in r_terms):
+                self.note_index(R, rk)         # (for p = pos(q') the image is q' itself: no new term)
 
         self.add_qfact(R, 'filter-R', inst_R)
         self.add_qfact(S, 'filter-S', inst_S)
